@@ -339,6 +339,17 @@ class EffectVisitor:
         a = fn.args
         for p in a.args + a.kwonlyargs + ([a.vararg] if a.vararg else []) + ([a.kwarg] if a.kwarg else []):
             self.prov[p.arg] = 'param'
+        # a parameter that is compared (==, <, in, ...) in the TEST of an if / conditional expression / while / assert is a Python
+        # scalar (a tensor there raises "ambiguous truth value"): re-binding it with an augmented assignment mutates nothing
+        tests = []
+        for node in ast.walk(fn):
+            if isinstance(node, (ast.If, ast.IfExp, ast.While, ast.Assert)): tests.append(node.test)
+        for t in tests:
+            for c in ast.walk(t):
+                if isinstance(c, ast.Compare) and not any(isinstance(o, (ast.Is, ast.IsNot)) for o in c.ops):
+                    for v in [c.left] + list(c.comparators):
+                        if isinstance(v, ast.Name) and self.prov.get(v.id) == 'param':
+                            self.prov[v.id] = 'scalar'
         self.sites = []          # (kind, detail, provenance, line)
 
     def is_scalar(self, e):
